@@ -1,5 +1,7 @@
 NOTE = ("trusted: NumPy/SciPy/mpmath/SymPy, the reference models in vmon/ref.py, the domain guards copied from the "
-        "property statement; 'held' means held on the executions observed (counts, cells and line reach in the evidence)")
+        "property statement; 'held' means held on the executions observed (counts, cells and line reach in the evidence), "
+        "in two interpreter configurations (default and python -O) and with arguments also presented as frozen, strided, "
+        "Fortran-ordered arrays, NumPy scalars and narrow element types (DESIGN.md 10.2a, 10.5 round 5)")
 BUILT['C01'] = (
     "runtime contracts: post-conditions with domain guards rebound on every binding of the group-valued base functions "
     "+ object-validity oracle on every constructor / operator result in random expression trees",
